@@ -8,11 +8,12 @@ HARNESSES = [dict(name="ha", pkg="./pkg/ha/", test="TestVerifC11", timeout=900,
 # repaired first (the theorems are proved for it); one variant per recorded defect; defective = all of them together
 # repaired = /repo HEAD for everything that is fixed + dropping of messages not above lastSeq (the theorems
 # C11_converges / C11_pools_exact are proved for it); d_stale = Model.head = /repo HEAD exactly: the receiver never
-# compares sequence numbers (the only finding still open).  Variants for fixed findings are gone: a regression to
-# any of them is reported as a VIOLATION.
-VARIANTS = ["repaired", "d_stale"]
-# known-finding signature (only one left)
-SIG = {"stale": "stale-redelivery-applied"}
+# compares sequence numbers; d_head = Model.head = /repo HEAD: all open findings (stale redelivery, missed DELETE after
+# a bulk sync, sender steps not atomic).  Variants for fixed findings are gone: a regression is a VIOLATION.
+VARIANTS = ["repaired", "d_stale", "d_head"]
+# known-finding signatures
+SIG = {"stale": "stale-redelivery-applied", "lagdel": "bulk-sync-cannot-convey-missed-delete",
+       "race": "sender-seq-push-not-atomic"}
 RULE = ("rng: ring capacities {1..9, 16, 0 and -1 (=10000)} x pushed runs of consecutive uint64 sequence numbers (fresh, wrapped "
         "1..3 times, starting at 1 / large / just below 2^63), queried with every (from,to) in a window around the retained "
         "range plus empty, inverted, far-away and (class 'huge') >= 2^63 bounds; every answer is held by the caller and read again after each of cap+1 further pushes. "
@@ -237,11 +238,28 @@ def gen_hist(rng, mode, nops):
     if wrapped:
         fresh, mode = True, "clean"
         cap = rng.choice([2, 3, 4])
+    lag = mode == "lagbulk"       # SRG 2's standby side has state, then misses messages (one of them a DELETE of a
+    if lag:                       # session it holds) and catches up by a bulk sync
+        mode = "clean"
+        cap = rng.choice([2, 3, 8, 64])
+    hold2 = False
     act = Active(rng, mode)
     ops = []
     sent = {1: [], 2: []}      # per srg: list of (is_delete, key)
     nxt = {1: 0, 2: 0}
     while len(ops) < nops:
+        if lag and not hold2 and len(ops) >= nops // 2:
+            while nxt[2] < len(sent[2]):
+                ops.append("D:2")
+                nxt[2] += 1
+            hold2 = True
+            live2 = [s for s in act.live.values() if s["srg"] == 2]
+            if live2:
+                s = rng.choice(live2)
+                ops.append(ev_token(s, True))
+                sent[2].append((True, (s["kind"], s["sid"])))
+                act.free(s)
+                del act.live[s["sid"]]
         x = rng.random()
         if x < 0.55:
             sid = rng.randint(1, 7)
@@ -278,7 +296,7 @@ def gen_hist(rng, mode, nops):
                 act.free(s)
                 del act.live[sid]
         elif x < 0.85:
-            g = 1 if fresh else rng.choice([1, 2])
+            g = 1 if fresh or hold2 else rng.choice([1, 2])
             if nxt[g] < len(sent[g]) and rng.random() < 0.12:
                 # the standby's store write fails: the request is lost and retransmitted before anything newer
                 nxt[g] += 1
@@ -290,7 +308,7 @@ def gen_hist(rng, mode, nops):
             if nxt[g] < len(sent[g]):
                 nxt[g] += 1
         else:
-            g = 1 if fresh else rng.choice([1, 2])
+            g = 1 if fresh or hold2 else rng.choice([1, 2])
             m = nxt[g]
             y = rng.random()
             if latest and m >= 1:
@@ -347,6 +365,16 @@ def gen_hist(rng, mode, nops):
         else:
             ops.append("B:2")
         nxt[2] = len(sent[2])
+    if lag:
+        ops.append("B:2")
+        nxt[2] = len(sent[2])
+        if rng.random() < 0.5:                 # the live stream goes on after the bulk sync
+            live2 = [s for s in act.live.values() if s["srg"] == 2]
+            if live2:
+                s = rng.choice(live2)
+                s["user"] = rng.choice([0, 1, 2, 3])
+                ops.append(ev_token(s, False))
+                sent[2].append((False, (s["kind"], s["sid"])))
     for g in (1, 2):
         while nxt[g] < len(sent[g]):
             ops.append("D:%d" % g)
@@ -364,14 +392,14 @@ def gen_hist(rng, mode, nops):
                 ops.append("R:%d:%d" % (g, k))
     if mode == "clean" and rng.random() < 0.2:
         ops.append("D:1")                      # nothing left: no-op
-    return "hist %s %d %d %s %s" % ("latest" if latest else "freshwrap" if wrapped else "fresh" if fresh else mode, cap, page, " ".join(pool_tokens(mode)), " ".join(ops))
+    return "hist %s %d %d %s %s" % ("lagbulk" if lag else "latest" if latest else "freshwrap" if wrapped else "fresh" if fresh else mode, cap, page, " ".join(pool_tokens(mode)), " ".join(ops))
 
 
 def gen_cases(rng, tier, budget):
     out = []
     gen_rng(rng, tier, out)
     n = (budget or 900) if tier == "quick" else (budget or 12000)
-    modes = ["clean"] * 2 + ["fresh", "freshwrap", "stale", "latest", "drop", "bulk", "relall"]
+    modes = ["clean"] * 2 + ["fresh", "freshwrap", "lagbulk", "stale", "latest", "drop", "bulk", "relall"]
     for i in range(n):
         mode = modes[i % len(modes)]
         out.append(gen_hist(rng, mode, rng.randint(12, 45)))
@@ -380,7 +408,7 @@ def gen_cases(rng, tier, budget):
 
 # ------------------------------------------------------------------ verdict helpers
 def _flags(line):
-    m = re.search(r"conv=(\w+) pools=(\w+)$", line or "")
+    m = re.search(r"conv=([\w-]+) pools=([\w-]+)$", line or "")
     return (m.group(1), m.group(2)) if m else (None, None)
 
 
@@ -411,6 +439,9 @@ def classify(case, impl, model):
         return "P", "Range does not return exactly the retained entries of the requested range: " + "; ".join(what)
     ic, ipl = _flags(impl)
     mc, mpl = _flags(model)
+    if "MODEL-DOES-NOT-CONVERGE" in model:
+        return "P", ("every message was delivered, yet neither the implementation nor the repaired model converges "
+                     "(impl conv=%s pools=%s): the property is violated and the model shares the defect" % (ic, ipl))
     if mc == "ok" and ic != "ok":
         return "P", "standby store differs from the active node's live sessions after complete delivery (impl conv=%s)" % ic
     if mpl == "ok" and ipl != "ok":
@@ -425,6 +456,7 @@ def _triggers(case):
     t = case.split()
     cap = int(t[2])
     sent, m, last = {1: [], 2: []}, {1: 0, 2: 0}, {1: 0, 2: 0}
+    dels = {1: [], 2: []}
     out = set()
     for tok in t[4:]:
         f = tok.split(":")
@@ -432,6 +464,7 @@ def _triggers(case):
             g = int(f[3])
             if g in (1, 2):
                 sent[g].append((f[1], f[2]))
+                dels[g].append(f[4] == "1")
         elif f[0] in ("D", "DF"):
             g = int(f[1])
             if m[g] < len(sent[g]):
@@ -454,6 +487,8 @@ def _triggers(case):
             n = len(sent[g])
             if n > cap and last[g] + 1 < n - cap + 1:
                 out.add("window")             # the standby is behind the retained window
+            if last[g] > 0 and any(dels[g][last[g]:]):
+                out.add("lagdel")             # the standby has state and has not been delivered a DELETE
             if n:
                 m[g], last[g] = max(m[g], n), n
             if f[0] == "C":
@@ -462,16 +497,39 @@ def _triggers(case):
 
 
 def signature(case, impl, models):
-    """Only stale-redelivery-applied is still open: the case must be of an input class that redelivers old messages
-    (modes stale, latest) and must really contain such a redelivery."""
-    mode = case.split()[1]
-    if not case.startswith("hist") or mode not in ("stale", "latest") or "stale" not in _triggers(case):
+    """Known-finding signature = input class of the case, and only when the case text really contains the trigger."""
+    t = case.split()
+    mode = t[1]
+    if t[0] == "conc":
+        return SIG["race"] if _overlap(case) else None
+    if t[0] != "hist":
         return None
-    if mode == "latest":
+    trig = _triggers(case)
+    if mode == "stale" and "stale" in trig:
+        return SIG["stale"]
+    if mode == "latest" and "stale" in trig:
         # a message is delivered again only while it is the newest delivered one of its session: HEAD's lastSeq goes
         # backwards (the finding) but store and pools must be right (C11_converges_head, C11_pools_exact_head)
         return SIG["stale"] if _flags(impl) == ("ok", "ok") else None
-    return SIG["stale"]
+    if mode == "lagbulk" and "lagdel" in trig:
+        return SIG["lagdel"]
+    return None
+
+
+def _overlap(case):
+    """conc case: some handler is between its steps while another one completes."""
+    started = set()
+    for tok in case.split()[3:]:
+        f = tok.split(":")
+        if f[0] == "H":
+            started.add(f[1])
+        elif f[0] == "F":
+            started.discard(f[1])
+            if started:
+                return True
+        elif f[0] == "E" and started:
+            return True
+    return False
 
 
 def shrink(case):
